@@ -40,6 +40,23 @@ def _match(entry_match: dict, tags: dict) -> bool:
     return True
 
 
+def _sanitize(x):
+    """TLC's Json module cannot read null and mangles floats: None -> [], floats are a harness bug."""
+    if x is None:
+        return []
+    if isinstance(x, bool) or isinstance(x, (int, str)):
+        return x
+    if isinstance(x, float):
+        raise Machinery(f"float {x!r} in a trace (traces carry integers/rationals only)")
+    if isinstance(x, dict):
+        return {str(k): _sanitize(v) for k, v in x.items()}
+    if isinstance(x, (list, tuple)):
+        return [_sanitize(v) for v in x]
+    if hasattr(x, "item"):
+        return _sanitize(x.item())
+    return str(x)
+
+
 class Ctx:
     def __init__(self, pid: str, tier: str, seed: int):
         self.pid = pid
@@ -105,7 +122,7 @@ class Ctx:
             part = traces[off:off + chunk]
             path = os.path.join(self.scratch, f"traces-{module}-{off}.json")
             with open(path, "w") as f:
-                json.dump(part, f)
+                json.dump(_sanitize(part), f)
             e = {"TRACE_FILE": path}
             e.update(env or {})
             r = tlc.run_tlc(module, cfg, cfg_text=cfg_text, workers=1, timeout=timeout, env=e, java_opts=java_opts)
